@@ -9,15 +9,15 @@ import warnings
 
 import numpy as np
 
-from .. import gen
+from .. import gen, taps
 from ..ctx import digest, Skip
-from ..snap import snap, samples_of, is_obs
+from ..snap import snap, samples_of, is_obs, obs_digest
 from ..compare import compare_obs
 from ..ref import dense
 
 ID = 'C05'
 LEVEL = 'exploration'
-DECIDING = ['reweight_cases', 'correlate_cases', 'merge_cases', 'error_rows']
+DECIDING = ['reweight_cases', 'correlate_cases', 'merge_cases', 'error_rows', 'operands_compared_after_the_call']
 RULE = ('cases: weights on 1-3 replicas with contiguous / strided / irregular lists and pairwise distinct values; observables on '
         'full / prefix / stride / random subsets of the weight configurations and on any non-empty replica subset; both normalisations; '
         'lists of observables, Obs.reweight, Corr.reweight / Corr.correlate, qtop_projection, every replica partition for merge_obs '
@@ -29,16 +29,62 @@ ASSUMPTIONS = ['Obs division used inside reweight is judged by C01; here the exp
 BUDGET = {'quick': 45, 'thorough': 540}
 
 PE = None
+CTX = None
+
+
+def _collect(x, out, depth=0):
+    if depth > 4:
+        return
+    if is_obs(x):
+        out.append(x)
+    elif type(x).__name__ == 'Corr' and hasattr(x, 'content'):
+        for c in x.content:
+            if c is not None:
+                _collect(list(np.asarray(c, dtype=object).ravel()), out, depth + 1)
+    elif isinstance(x, (list, tuple)) or (isinstance(x, np.ndarray) and x.dtype == object):
+        for i in (x.ravel() if isinstance(x, np.ndarray) else x):
+            _collect(i, out, depth + 1)
+
+
+class OperandsMonitor(taps.Monitor):
+    """The observables handed to reweight / correlate / merge_obs are the caller's: whatever happens inside, they hold the
+    same data afterwards (a second use of the same weight or observable must pair the same samples)."""
+    def __init__(self, key):
+        self.key = key
+
+    def before(self, args, kwargs):
+        objs = []
+        _collect(list(args), objs)
+        _collect(list(kwargs.values()), objs)
+        return [(o, obs_digest(o)) for o in objs]
+
+    def after(self, token, args, kwargs, result, exc):
+        if token is None:
+            return
+        CTX.count('operands_compared_after_the_call', len(token))
+        CTX.ev()
+        for o, d in token:
+            if obs_digest(o) != d:
+                CTX.violation('operand-modified:' + self.key, {'names': list(o.names), 'raised': repr(exc) if exc is not None else None})
+                break
 
 
 def setup(ctx):
-    global PE
+    global PE, CTX
     import pyerrors as pe
     PE = pe
+    CTX = ctx
+    for name in ('reweight', 'correlate', 'merge_obs'):
+        taps.tap_function(pe.obs, name, OperandsMonitor(name))
+    taps.tap_method(pe.Obs, 'reweight', OperandsMonitor('Obs.reweight'))
+    taps.tap_method(pe.Corr, 'reweight', OperandsMonitor('Corr.reweight'))
+    taps.tap_method(pe.Corr, 'correlate', OperandsMonitor('Corr.correlate'))
+    taps.tap_function(pe.input.openQCD, 'qtop_projection', OperandsMonitor('qtop_projection'))
 
 
 def teardown(ctx):
-    pass
+    taps.report(ctx)
+    taps.remove_all()
 
 
 SUBSETS = ['full', 'prefix', 'stride', 'random']
@@ -144,6 +190,11 @@ def case_reweight(ctx, rng, fn, how):
             ctx.nontrivial.add(digest('rw', fn, allc, sorted((n, sorted(d.items())) for n, d in t.items())))
     # operands untouched
     ctx.equal(snap(w)['chains'].keys(), wtab.keys(), 'reweight:weight-modified')
+    if fn in ('reweight', 'reweight_all', 'list') and rng.random() < 0.5:
+        # the same weight and observables used a second time pair the same samples
+        again = pe.reweight(w, obs, all_configs=allc) if allc else pe.reweight(w, obs)
+        ctx.count('second_calls_with_the_same_objects')
+        ctx.equal([obs_digest(x) for x in again], [obs_digest(x) for x in res], 'reweight:second-call-with-the-same-objects-differs', fn)
     ctx.sample({'fn': fn, 'subset': how, 'all_configs': allc, 'weight_chains': {n: len(d) for n, d in wtab.items()},
                 'obs_chains': [{n: len(d) for n, d in t.items()} for t in otabs]})
 
